@@ -1116,6 +1116,18 @@ class TLSRecordLayer(object):
                             "non-handshake messages"):
                         yield result
 
+                # in earlier versions the keys change with
+                # ChangeCipherSpec, a handshake message must not span it
+                if self.version <= (3, 3) and \
+                        recordHeader.type == \
+                        ContentType.change_cipher_spec and \
+                        self._defragmenter.buffers[ContentType.handshake]:
+                    for result in self._sendError(
+                            AlertDescription.unexpected_message,
+                            "ChangeCipherSpec inside of a handshake "
+                            "message"):
+                        yield result
+
                 #If we received an unexpected record type...
                 if recordHeader.type not in expectedType:
 
